@@ -48,10 +48,10 @@ Relevant(pk, e) ==
 (* tk : kind of what a link resolves to: "file" | "dir" | "none"].         *)
 NodePath(n) == SplitBy(n.p, "/")
 
-SegMatch(noglob, pat, s) == IF noglob THEN pat = s ELSE WildMatch(pat, s)
-
+(* a path (components) against a pattern: literally when globbing is disabled, else the full glob syntax on the joined strings *)
 PathMatch(noglob, segs, p) ==
-  Len(segs) = Len(p) /\ \A i \in 1..Len(p) : SegMatch(noglob, segs[i], p[i])
+  IF noglob THEN segs = p
+  ELSE GlobMatch(JoinBy(segs, "/"), JoinBy(p, "/"))
 
 CleanRel(raw) ==                     \* a relative source spelling, cleaned
   LET t == Tokens(raw) IN
